@@ -115,8 +115,9 @@ def build_batch(cfg):
     return sp, xyz
 
 
-ENGINES = ("basic", "langevin", "xl", "xl_damp", "ksa", "exc_basic", "exc_xl", "sh")
-STUB_OK = ("basic", "langevin", "xl", "xl_damp", "ksa", "sh_model", "exc_basic", "exc_xl")
+ENGINES = ("basic", "langevin", "xl", "xl_damp", "ksa", "exc_basic", "exc_xl", "xl_esmd", "sh")
+STUB_OK = ("basic", "langevin", "xl", "xl_damp", "ksa", "sh_model", "exc_basic", "exc_xl", "xl_esmd")
+EXC_ENGINES = ("exc_basic", "exc_xl", "xl_esmd")
 
 
 def seqm_parameters(cfg):
@@ -124,7 +125,7 @@ def seqm_parameters(cfg):
     if cfg["driver"] == "stub":
         sp["_stub"] = dict(cfg.get("stub", {}))
     eng = cfg["engine"]
-    if eng in ("exc_basic", "exc_xl"):
+    if eng in EXC_ENGINES:
         sp["excited_states"] = {"n_states": cfg.get("n_states", 3), "method": "cis"}
         sp["active_state"] = cfg.get("active_state", 1)
     if eng == "sh":
@@ -182,6 +183,8 @@ def make_md(cfg, prefix, params=None, md=None):
         md = MDm.Molecular_Dynamics_Basic(**common)
     elif eng == "langevin":
         md = MDm.Molecular_Dynamics_Langevin(damp=cfg["damp"], **common)
+    elif eng == "xl_esmd":
+        md = MDm.XL_ESMD(damp=cfg.get("damp"), xl_bomd_params={"k": cfg["k"]}, **common)
     elif eng in ("xl", "xl_damp", "exc_xl"):
         md = MDm.XL_BOMD(damp=(cfg["damp"] if eng == "xl_damp" else None), xl_bomd_params={"k": cfg["k"]}, **common)
     elif eng == "ksa":
@@ -448,7 +451,7 @@ def expected_streams(cfg):
         "forces": due_steps(S, int(h5.get("forces", 0))),
         "xyz": due_steps(S, int(o.get("xyz", 0))),
         "nonadiabatic": due_steps(S, int(h5.get("nonadiabatic", 0))) if cfg["engine"] in ("sh", "sh_model") else [],
-        "tdm": due_steps(S, int(h5.get("transition_density_matrices", 0))) if cfg["engine"] in ("exc_basic", "exc_xl", "sh") else [],
+        "tdm": due_steps(S, int(h5.get("transition_density_matrices", 0))) if cfg["engine"] in EXC_ENGINES + ("sh",) else [],
         "screen": due_steps(S, int(o.get("print", 0)), initial=False),
         "checkpoint": due_steps(S, int(o.get("ckpt", 0)), initial=False),
     }
